@@ -55,12 +55,18 @@ pub enum Fault {
     /// the slave raises Prm_Req in its diagnostics (and signals diagnostics) although it stays in
     /// data exchange and does not report "not ready" — it wants to be parameterised again
     PrmReqOnly,
+    /// the slave raises exactly one of the "not ready" flags of station status 1 (0x02 Station_Not_Ready,
+    /// 0x04 Cfg_Fault, 0x40 Prm_Fault) in its diagnostics, and nothing else, until it is parameterised again
+    FlagOnly(u8),
     /// not a fault of the slave: the harness calls request_diagnostics() on the master while this
     /// transaction's reply is in flight
     UserDiagRequest,
 }
 
 pub struct SlaveCore {
+    /// flavour: a slave whose Chk_Cfg access point is only enabled once it has parameters answers a
+    /// Chk_Cfg in Wait_Prm with "RS" (like the common ASICs do) instead of acknowledging and ignoring it
+    pub strict_sap: bool,
     pub addr: u8,
     pub ident: u16,
     pub cfg: Vec<u8>,
@@ -116,6 +122,7 @@ impl SlaveCore {
             diag_pending: false,
             ext_diag: Vec::new(),
             ext_diag_flag: false,
+            strict_sap: false,
             extra_status1: 0,
             extra_status2: 0,
             wd_on: false,
@@ -256,6 +263,7 @@ impl SlaveCore {
                     self.prm_fault = false;
                     self.cfg_fault = false;
                     self.extra_status2 &= !0x01;
+                    self.extra_status1 = 0;
                     self.master = Some(*sa);
                     self.wd_on = pdu[0] & 0x08 != 0;
                     self.sync = pdu[0] & 0x20 != 0;
@@ -269,6 +277,9 @@ impl SlaveCore {
                 self.last_chk_cfg = Some(pdu.clone());
                 if self.state == SlaveState::WaitPrm {
                     // configuration before parameters: stays in Wait_Prm
+                    if self.strict_sap {
+                        return rc::encode(&self.resp(*sa, None, None, 3, vec![]));
+                    }
                     return Some(vec![rc::SC]);
                 }
                 if *pdu == self.cfg {
@@ -385,6 +396,10 @@ impl Device for RefSlave {
             Fault::DiagPending => core.diag_pending = true,
             Fault::PrmReqOnly => {
                 core.extra_status2 |= 0x01;
+                core.diag_pending = true;
+            }
+            Fault::FlagOnly(bit) => {
+                core.extra_status1 |= bit;
                 core.diag_pending = true;
             }
             Fault::WatchdogExpiry => {
